@@ -245,6 +245,10 @@ class Edits(Profile):
                                  {"returned": short(c.out.value), "actual": actual})
         elif k == "query":
             acc = c.kobj.expected(c.pre, c.R, c.op)
+            if c.op["q"] == "child_index" and acc == [None]:
+                # asked about a node that is not a child: the statement does not say whether that is
+                # None, -1 or an exception; only that the tree stays as it is (frame, above)
+                return None
             if not c.out.ok:
                 return Violation("C09", "E6", "query:%s:raised:%s" % (c.op["q"], type(c.out.exc).__name__),
                                  "query %s raised %s" % (c.op["q"], short(c.out.exc)))
